@@ -44,23 +44,21 @@ Fixpoint check_admin_rev (t : tree) (u : str) (gs : list str) (rp : list str) : 
       end
   end.
 
-(* walk up to the first existing queue: "current = current[0:LastIndex(current, DOT)]" on the raw
-   name is [removelast] on its parts.  None = no part left (LastIndex = -1). *)
-Fixpoint first_existing (t : tree) (fuel : nat) (parts : list str) : option queue :=
-  match fuel with
+(* walk up to the first existing queue: "current = current[0:LastIndex(current, DOT)]; queue =
+   queueFn(current)" until a queue is found.  On the parts of the raw name this tries the prefixes of
+   length k, k-1, ..., 1 (a single part has no DOT left: the pinned code panics there, LastIndex = -1).
+   Returns the queue and the length of its path. *)
+Fixpoint up_from (t : tree) (parts : list str) (k : nat) : option (queue * nat) :=
+  match k with
   | O => None
-  | S k =>
-      match parts with
-      | [] | [_] => None
-      | _ => let up := removelast parts in
-             match get_parts t (map lower up) with
-             | Some q => Some q
-             | None => first_existing t k up
-             end
-      end
+  | S k' => match get_parts t (map lower (firstn k parts)) with
+            | Some q => Some (q, k)
+            | None => up_from t parts k'
+            end
   end.
 Definition existing_parent (t : tree) (n : str) : option queue :=
-  let parts := split_dot n in first_existing t (length parts) parts.
+  let parts := split_dot n in
+  match up_from t parts (length parts - 1) with Some (q, _) => Some q | None => None end.
 
 Inductive reason :=
 | NoMatch                 (* ErrorRejected: no placement rule matched *)
@@ -143,18 +141,12 @@ Fixpoint create_chain (t : tree) (parent : queue) (names : list str) : tree * op
       end
   end.
 
-(* parts of [n] below the first existing queue, top first (raw case) *)
-Fixpoint to_create (t : tree) (fuel : nat) (parts : list str) (acc : list str) : option (queue * list str) :=
-  match fuel with
-  | O => None
-  | S k =>
-      match get_parts t (map lower parts) with
-      | Some q => Some (q, acc)
-      | None => match parts with
-                | [] | [_] => None
-                | _ => to_create t k (removelast parts) (last parts [] :: acc)
-                end
-      end
+(* createQueue: the same walk starting from the full name (which does not exist); the parts below the
+   queue found are the names to create, top first (raw case) *)
+Definition to_create (t : tree) (parts : list str) : option (queue * list str) :=
+  match up_from t parts (length parts) with
+  | Some (q, k) => Some (q, skipn k parts)
+  | None => None
   end.
 
 Inductive cres := COk (t : tree) (q : queue) | CErr (t : tree) (r : reason) | CCrash.
@@ -163,7 +155,7 @@ Definition create_queue (t : tree) (a : app) (n : str) : cres :=
   if negb (has_prefix s_root n) || negb (existsb (N.eqb DOT) n) then CErr t IllegalName
   else
     let parts := split_dot n in
-    match to_create t (S (length parts)) parts [] with
+    match to_create t parts with
     | None => CCrash
     | Some (q, names) =>
         if negb (check_submit t a q) then CErr t CreateDenied
